@@ -7,17 +7,9 @@ import MLPE.Proofs.SafeDemo
 namespace MLPE.Eng
 open MLPE
 
-theorem filteredView_noChild {P : Program} (hch : ∀ n, (P.g.attr n).isOneofChild = false) (s : St) :
-    filteredView P s = filteredView P init := by
-  unfold filteredView
-  congr 1
-  funext u
-  simp [hch u]
-
-theorem reducedRef_noChild {P : Program} (hch : ∀ n, (P.g.attr n).isOneofChild = false) (s : St) (src dst : Node)
-    (a b c : Bool) : reducedRef P s src dst a b c = reducedRef P init src dst a b c := by
-  unfold reducedRef
-  rw [filteredView_noChild hch s]
+/-- the view of the reduced DAGs does not depend on the state -/
+theorem reducedRef_state (P : Program) (s : St) (src dst : Node) (a b c : Bool) :
+    reducedRef P s src dst a b c = reducedRef P init src dst a b c := rfl
 
 /-- the `is_nested_oneof` flag does not change which DAG is built -/
 theorem reducedRef_nested {P : Program} {s : St} {a b : Node} {f1 f2 : Bool} (f3 : Bool) {d : DagRef}
@@ -34,7 +26,7 @@ theorem reducedRef_nested {P : Program} {s : St} {a b : Node} {f1 f2 : Bool} (f3
 /-- **the hypotheses of the stuck-freedom theorem from the executable check** (`livePB`, which the driver evaluates on the
 generated programs) -/
 theorem liveP_of_check {P : Program} (dl : List (Node × Nat)) (hsw : SwP P) (hy : ∀ cb n, P.cbYield cb n = 0)
-    (hch : ∀ n, (P.g.attr n).isOneofChild = false) (hc : livePB P dl = true) : LiveP P (depthOf dl) := by
+    (hc : livePB P dl = true) : LiveP P (depthOf dl) := by
   unfold livePB at hc
   simp only [Bool.and_eq_true, List.all_eq_true, decide_eq_true_eq, Bool.not_eq_true', Bool.or_eq_true] at hc
   obtain ⟨⟨⟨⟨⟨⟨h1, h2⟩, h3⟩, h4⟩, h5⟩, h6⟩, h7⟩ := hc
@@ -66,7 +58,7 @@ theorem liveP_of_check {P : Program} (dl : List (Node × Nat)) (hsw : SwP P) (hy
       · exact List.mem_cons_of_mem _ (List.mem_map.mpr ⟨e, List.mem_filter.mpr ⟨he, hcs⟩, hu⟩)
     have := h7 dst hmem
     unfold dagOKB at this
-    rw [reducedRef_noChild hch]
+    rw [reducedRef_state]
     split at this
     · cases this
     · next d hd =>
@@ -78,10 +70,7 @@ theorem liveP_of_check {P : Program} (dl : List (Node × Nat)) (hsw : SwP P) (hy
 /-! ### the demo pipeline (a switch with two cases) meets the hypotheses -/
 
 theorem demoSwitch_liveP : LiveP demoSwitch (depthOf (computeDepths demoSwitch)) := by
-  refine liveP_of_check _ demoSwitch_swP (fun _ _ => rfl) ?_ (by decide)
-  intro n
-  simp only [demoSwitch]
-  split <;> rfl
+  exact liveP_of_check _ demoSwitch_swP (fun _ _ => rfl) (by decide)
 
 /-! ### a pending demo run (non-vacuity of `LiveReach`) -/
 
